@@ -334,3 +334,173 @@ Proof.
   assert (E : Nat.eqb (length res) (length pars) = true) by (apply Nat.eqb_eq; lia).
   rewrite E. exists res. reflexivity.
 Qed.
+
+(* ------------------------------------------------------------------ success implies NoDup
+   Without assuming that parent lists are duplicate-free, a weaker invariant still holds:
+   the counter of i is length (pars i) minus the number of (distinct) elements of out that
+   occur in pars i, and every variable in out ++ queue has counter 0.  A variable with a
+   repeated parent never reaches counter 0, so the final assert fails. *)
+Lemma NoDup_app_l (l1 l2 : list nat) : NoDup (l1 ++ l2) -> NoDup l1.
+Proof.
+  induction l1 as [|a r IH]; cbn [app]; intros H; [constructor|].
+  inversion H as [|x l Ha Hr]; subst. constructor.
+  - intros Hin. apply Ha. apply in_app_iff. now left.
+  - apply IH, Hr.
+Qed.
+
+(* number of elements of out occurring in ps *)
+Definition hitl (out ps : list nat) : nat := length (filter (fun s => mem_nat s ps) out).
+
+Lemma hitl_snoc out s ps :
+  hitl (out ++ [s]) ps = hitl out ps + (if mem_nat s ps then 1 else 0).
+Proof.
+  unfold hitl. rewrite filter_app, app_length. cbn [filter].
+  destruct (mem_nat s ps); reflexivity.
+Qed.
+
+Lemma hitl_lt out ps s : NoDup out -> ~ In s out -> In s ps -> hitl out ps < length ps.
+Proof.
+  intros Hnd Hs Hin. unfold hitl.
+  set (l := filter (fun s => mem_nat s ps) out).
+  assert (H : length (s :: l) <= length ps).
+  { apply NoDup_incl_length.
+    - constructor.
+      + intros Hc. apply Hs. unfold l in Hc. apply filter_In in Hc. tauto.
+      + apply NoDup_filter, Hnd.
+    - intros x [Hx|Hx]; [subst x; exact Hin|].
+      unfold l in Hx. apply filter_In in Hx. apply mem_nat_In. tauto. }
+  cbn [length] in H. lia.
+Qed.
+
+Section TopoWeak.
+Variable pars : list (list nat).
+
+Record WInv (num queue out : list nat) : Prop := mkWInv {
+  winv_len : length num = length pars;
+  winv_nd : NoDup (out ++ queue);
+  winv_lt : forall x, In x (out ++ queue) -> x < length pars;
+  winv_num : forall i, i < length pars ->
+             nth i num 1 = length (nth i pars []) - hitl out (nth i pars []);
+  winv_zero : forall i, i < length pars -> In i (out ++ queue) -> nth i num 1 = 0 }.
+
+Lemma winv_length num queue out : WInv num queue out -> length (out ++ queue) <= length pars.
+Proof.
+  intros [_ Hnd Hlt _ _].
+  rewrite <- (seq_length (length pars) 0).
+  apply NoDup_incl_length; [exact Hnd|].
+  intros x Hx. apply in_seq. specialize (Hlt x Hx). lia.
+Qed.
+
+Lemma winv_step num s q out : WInv num (s :: q) out ->
+  WInv (topo_dec pars s num) (q ++ topo_new pars s (topo_dec pars s num)) (out ++ [s]).
+Proof.
+  intros [Hlen Hnd Hlt Hnum Hzero].
+  set (num' := topo_dec pars s num).
+  set (new := topo_new pars s num').
+  assert (Hs_out : ~ In s out).
+  { apply NoDup_remove_2 in Hnd. intros H. apply Hnd. apply in_app_iff. now left. }
+  assert (Hnd_out : NoDup out) by (apply NoDup_app_l in Hnd; exact Hnd).
+  assert (Hlen' : length num' = length pars).
+  { unfold num', topo_dec. rewrite map_length, combine_length. lia. }
+  assert (Hdec : forall i, i < length pars ->
+            nth i num' 1
+            = if mem_nat s (nth i pars []) then pred (nth i num 1) else nth i num 1).
+  { intros i Hi. unfold num'. apply nth_topo_dec; assumption. }
+  assert (Hnum' : forall i, i < length pars ->
+            nth i num' 1 = length (nth i pars []) - hitl (out ++ [s]) (nth i pars [])).
+  { intros i Hi. rewrite Hdec by exact Hi. rewrite hitl_snoc. rewrite Hnum by exact Hi.
+    destruct (mem_nat s (nth i pars [])); lia. }
+  assert (Hnew : forall i, In i new <->
+            i < length pars /\ In s (nth i pars []) /\ nth i num' 1 = 0).
+  { intros i. unfold new, topo_new. rewrite filter_In, in_seq, andb_true_iff.
+    rewrite mem_nat_In, Nat.eqb_eq. split.
+    - intros [Hi [Hm Hz]]. split; [lia | auto].
+    - intros [Hi [Hm Hz]]. split; [lia | auto]. }
+  assert (E : (out ++ [s]) ++ q ++ new = (out ++ s :: q) ++ new).
+  { rewrite <- !app_assoc. reflexivity. }
+  constructor.
+  - exact Hlen'.
+  - rewrite E. apply NoDup_app_intro.
+    + exact Hnd.
+    + unfold new, topo_new. apply NoDup_filter, seq_NoDup.
+    + intros x Hx Hxn. apply Hnew in Hxn. destruct Hxn as [Hi [Hm _]].
+      pose proof (Hzero x Hi Hx) as Hz. rewrite Hnum in Hz by exact Hi.
+      pose proof (hitl_lt out (nth x pars []) s Hnd_out Hs_out Hm). lia.
+  - intros x. rewrite E, in_app_iff. intros [Hx|Hx]; [apply Hlt, Hx|].
+    apply Hnew in Hx. tauto.
+  - exact Hnum'.
+  - intros i Hi. rewrite E, in_app_iff. intros [Hx|Hx].
+    + rewrite Hdec by exact Hi. rewrite (Hzero i Hi Hx).
+      destruct (mem_nat s (nth i pars [])); reflexivity.
+    + apply Hnew in Hx. tauto.
+Qed.
+
+Lemma wloop_inv fuel : forall num queue out,
+  WInv num queue out -> length pars <= fuel + length out ->
+  exists num', WInv num' [] (topo_loop fuel pars num queue out).
+Proof.
+  induction fuel as [|f IH]; intros num queue out HI Hf; cbn [topo_loop].
+  - assert (Hq : queue = []).
+    { pose proof (winv_length _ _ _ HI) as Hl. rewrite app_length in Hl.
+      destruct queue as [|s q]; [reflexivity|]. cbn [length] in Hl. lia. }
+    subst queue. exists num. exact HI.
+  - destruct queue as [|s q]; [exists num; exact HI|].
+    apply IH; [apply winv_step; exact HI|].
+    rewrite app_length. cbn [length]. lia.
+Qed.
+
+Lemma winv_init :
+  WInv (map (@length nat) pars)
+       (filter (fun i => Nat.eqb (nth i (map (@length nat) pars) 1) 0) (seq 0 (length pars)))
+       [].
+Proof.
+  constructor; cbn [app].
+  - apply map_length.
+  - apply NoDup_filter, seq_NoDup.
+  - intros x Hx. apply filter_In in Hx. destruct Hx as [Hx _]. apply in_seq in Hx. lia.
+  - intros i Hi. rewrite nth_map_length by exact Hi. unfold hitl. cbn [filter length]. lia.
+  - intros i Hi Hx. apply filter_In in Hx. destruct Hx as [_ Hx]. apply Nat.eqb_eq, Hx.
+Qed.
+
+Lemma wtopo_final :
+  exists num', WInv num' []
+    (topo_loop (length pars) pars (map (@length nat) pars)
+       (filter (fun i => Nat.eqb (nth i (map (@length nat) pars) 1) 0) (seq 0 (length pars)))
+       []).
+Proof. apply wloop_inv; [exact winv_init | cbn [length]; lia]. Qed.
+
+End TopoWeak.
+
+Theorem topo_sort_nodup : forall pars ord,
+  (forall i ps, nth_error pars i = Some ps -> forall p, In p ps -> p < length pars) ->
+  topo_sort pars = Some ord -> wf_pars pars.
+Proof.
+  intros pars ord Hb H. unfold topo_sort in H. cbv zeta in H.
+  destruct (wtopo_final pars) as [num' HI].
+  set (res := topo_loop _ _ _ _ _) in *.
+  destruct (Nat.eqb (length res) (length pars)) eqn:E; [|discriminate].
+  clear H. apply Nat.eqb_eq in E.
+  destruct HI as [_ Hnd Hlt Hnum Hzero]. rewrite app_nil_r in Hnd, Hlt.
+  assert (Hall : incl (seq 0 (length pars)) res).
+  { apply NoDup_length_incl; [exact Hnd | rewrite seq_length; lia |].
+    intros x Hx. apply in_seq. specialize (Hlt x Hx). lia. }
+  intros i ps Hi. split; [|exact (Hb i ps Hi)].
+  assert (Hi' : i < length pars) by (apply nth_error_Some; congruence).
+  apply (nth_error_nth _ _ []) in Hi.
+  assert (Hin : In i res) by (apply Hall, in_seq; lia).
+  pose proof (Hzero i Hi') as Hz. rewrite app_nil_r in Hz. specialize (Hz Hin).
+  rewrite (Hnum i Hi') in Hz. rewrite Hi in Hz. unfold hitl in Hz.
+  apply NoDup_incl_NoDup with (l := filter (fun s => mem_nat s ps) res).
+  - apply NoDup_filter, Hnd.
+  - lia.
+  - intros x Hx. apply filter_In in Hx. apply mem_nat_In. tauto.
+Qed.
+
+Theorem topo_sort_sound' : forall pars ord,
+  (forall i ps, nth_error pars i = Some ps -> forall p, In p ps -> p < length pars) ->
+  topo_sort pars = Some ord ->
+  Permutation ord (seq 0 (length pars)) /\ parents_first pars ord.
+Proof.
+  intros pars ord Hb H. apply topo_sort_sound; [|exact H].
+  exact (topo_sort_nodup pars ord Hb H).
+Qed.
